@@ -30,9 +30,12 @@ void check_C18(Src &s, Ctx &ctx) {
     GridState st; st.cap = so.cap; st.ctx = &ctx;
     st.spec = decode_spec(s, so); st.vm.decode(s);
     if (st.spec.depth > 2) st.spec.depth = 2;
+    // rare class: a construction that grows beyond 1000 loaded points (the addon switches from immediate to amortised loading of completed samples there)
+    bool big = cfg().tier == 1 && s.n > 0 && (s.p[s.n - 1] % 20) == 7;   // thorough tier only (a run takes ~30 s under ThreadSanitizer); decided from the last byte, consumes nothing
+    if (big) { GridSpec b; b.family = s.pick(2) ? F_WAVE : F_LOCALP; b.dims = 2; b.outs = 1; b.depth = 2; b.rule = b.family == F_WAVE ? rule_wavelet : rule_localp; b.order = 1; st.spec = b; st.vm.bump = 2.0; st.vm.sharp = 20.0; }
     make_grid(st.g, st.spec, so.cap); ctx.log(st.spec.text());
     auto &g = st.g; const int d = st.spec.dims, outs = st.spec.outs; bool local = st.spec.family == F_LOCALP || st.spec.family == F_WAVE;
-    int mode = s.weighted({5, 2});   // 0 constructSurrogate, 1 loadNeededValues
+    int mode = big ? 0 : s.weighted({5, 2});   // 0 constructSurrogate, 1 loadNeededValues
     bool start_loaded = s.chance(1, 2);
     if (start_loaded || mode == 1) { Op ld; ld.kind = OP_LOAD; apply_op(st, ld); }
     size_t workers = 1 + (size_t)s.pick(8), batch = 1 + (size_t)s.pick(4);
@@ -53,11 +56,12 @@ void check_C18(Src &s, Ctx &ctx) {
     if (mode == 0) {
         // budget relative to the pool: 0..(loaded + ~40)
         size_t budget; int bsel = s.pick(5);
-        if (bsel == 0) budget = (size_t)s.pick(4); else if (bsel == 1) budget = loaded_before + (size_t)s.pick((int)workers + 1); else if (bsel == 2) budget = loaded_before > 0 ? loaded_before - 1 : 1; else budget = loaded_before + 3 + (size_t)s.pick(40);
+        if (big) { budget = 1100 + 50 * (size_t)s.pick(8); workers = 2 + (size_t)s.pick(3); for (auto &l : lat) l = 0; ctx.label("big-construction"); }
+        else if (bsel == 0) budget = (size_t)s.pick(4); else if (bsel == 1) budget = loaded_before + (size_t)s.pick((int)workers + 1); else if (bsel == 2) budget = loaded_before > 0 ? loaded_before - 1 : 1; else budget = loaded_before + 3 + (size_t)s.pick(40);
         ModelSignature model = [&](std::vector<double> const &x, std::vector<double> &y, size_t id) { size_t k = x.size() / (size_t)d; if (y.size() != k * (size_t)outs) y.resize(k * (size_t)outs); model_body(x.data(), k, y.data(), id); };
         std::vector<int> limits; if (s.chance(1, 4)) limits = decode_limits(s, d);
         desc << "constructSurrogate<parallel> budget=" << budget << " workers=" << workers << " batch=" << batch << (start_loaded ? " from a loaded grid of " : " from an unloaded grid, loaded=") << loaded_before << lim_text(limits);
-        if (local) { double tol = s.of(std::vector<double>{1e-3, 1e-1, 0.0, 1e-6, 10.0}); TypeRefinement crit = s.of(REFINE_TYPES); desc << " tol=" << tol << " " << refine_name(crit); ctx.log(desc.str());
+        if (local) { double tol = s.of(std::vector<double>{1e-3, 1e-1, 0.0, 1e-6, 10.0}); TypeRefinement crit = s.of(REFINE_TYPES); if (big) { tol = 0.0; crit = refine_classic; limits.clear(); } desc << " tol=" << tol << " " << refine_name(crit); ctx.log(desc.str());
             constructSurrogate<mode_parallel>(model, budget, workers, batch, g, tol, crit, -1, limits); ctx.label(tol >= 1e-1 ? "tolerance-reached-early" : "tolerance-not-reached"); }
         else if (s.pick(2) == 0 || !st.aniso_capable()) { TypeDepth t = ALL_TYPES[(size_t)s.pick(9)]; auto aw = decode_aw(s, d, t); desc << " type=" << type_name(t) << " aw=[" << join(aw) << "]"; ctx.log(desc.str()); constructSurrogate<mode_parallel>(model, budget, workers, batch, g, t, aw, limits); }
         else { TypeDepth t = ALL_TYPES[(size_t)s.pick(9)]; int out = (st.spec.family == F_GLOBAL) ? 0 : -1; desc << " type=" << type_name(t) << " output=" << out; ctx.log(desc.str()); constructSurrogate<mode_parallel>(model, budget, workers, batch, g, t, out, limits); }
